@@ -39,7 +39,11 @@ RULE = (
     "writer generations, with / without sentinel files at the targets (and at the names a rotation would pick); the expected "
     "file of a record is our own str.format of the template text over a plain model of the record.  (d) the same close "
     "histories with the writer opened on standard output ('-', '', stream://, jsonfile://, avro://; thorough also csvfile / line / "
-    "text and all 75 histories) in one worker process per case, the captured bytes read like a file.  The seed "
+    "text and all 75 histories) in one worker process per case, the captured bytes read like a file.  (e) process-state family: "
+    "child interpreters that, before importing flow.record, close descriptor 1 / 0 / 2 / all three (also with descriptor 0 re-occupied "
+    "so that the record file lands on descriptor 1), replace sys.stdout by a BytesIO-like or StringIO object, or start with stdout a "
+    "pipe / a file / closed, then run compact close / with-exit / double-close histories for stream, .gz, jsonfile, csvfile, avro and "
+    "sqlite on real paths; the parent reads the files after the child exited.  The seed "
     "varies the record values only; the enumerated spaces are the same for every seed.  A case is non-trivial when the "
     "writer was created and its history ran; distinct = distinct (part, adapter/target, history or N/limit/suffix or "
     "pattern/sentinel mode).  Oracle: conservation - the canonical observations (observe.obs) found on disk by the format's "
@@ -63,6 +67,7 @@ ASSUMPTIONS = [
     "what was handed to write() (a write() that raises therefore counts as a lost record)",
     "rotated files are recognised by directory and by containing the stem (text before the first dot) of the template name",
     "the writer object is dropped after the history, so AbstractWriter.__del__ adds one more close() to every history",
+    "a process-state child that cannot report (exit code, missing status file, watchdog) makes the run inconclusive, never violated",
     "stdout workers run with PYTHONIOENCODING=utf-8 and stdout connected to a pipe (not a tty); the interpreter's own flush of "
     "sys.stdout at exit is part of the observed behaviour; split:// on stdout (which never splits) is not exercised",
 ]
@@ -142,6 +147,14 @@ SPLIT_REL_FORMS = {
     "rdump-avro": ("rdump:avro://out.avro", "avro", None, ""),
 }
 SPLIT_REL_GRID = [(1, 2, 3), (2, 1, 5), (3, 2, 7), (4, 2, 9), (3, 3, 6), (7, 1, 8)]  # (limit, suffix length, N)
+
+# process-state family: the writers run in a child interpreter whose standard descriptors / sys.stdout are unusual
+PROC_STATES = ["close1", "close0", "close2", "close012", "close012-hold0", "fake-bytesio", "fake-stringio", "stdout-pipe", "stdout-file",
+               "stdout-closed-at-start"]
+NO_BUFFER_STATES = ("fake-bytesio", "fake-stringio", "stdout-closed-at-start")
+NO_BUFFER_STDOUT_TYPES = ("Capture", "StringIO", "NoneType")
+PROC_KINDS = ["stream", "stream.gz", "jsonfile", "csvfile", "avro", "sqlite"]
+PROC_HISTORIES = ["wwc", "wx", "x", "wcc", "fc", "wwfwx", "wwcx", "wxc"]
 
 ROT_WRITERS = ["ptw", "archiver", "archive-uri"]
 ROT_TEMPLATES = {
@@ -300,6 +313,12 @@ def generate(ctx):
             if ctx.mine(idx):
                 yield {"k": "splitrel", "form": form, "limit": limit, "sl": sl, "n": n, "end": end,
                        "s": subseed("c17", ctx.seed, "brel", form, limit, sl, n)}
+            idx += 1
+    # (e) process-state family: one child per (state, rotation of the adapter order)
+    for st in PROC_STATES:
+        for rot in range(2 if ctx.quick else len(PROC_KINDS)):
+            if ctx.mine(idx):
+                yield {"k": "procstate", "state": st, "rot": rot, "nh": 2 if ctx.quick else 4, "s": subseed("c17", ctx.seed, "e", st, rot)}
             idx += 1
     # (d) writers on standard output, one worker process per case
     for tg in (STDOUT_QUICK_TARGETS if ctx.quick else list(STDOUT_TARGETS)):
@@ -1045,6 +1064,103 @@ def exec_split_relative(ctx, case):
     shutil.rmtree(d, ignore_errors=True)
 
 
+# ---- (e) process-state family ------------------------------------------------------------------------------
+def exec_procstate(ctx, case):
+    state, rot = case["state"], case["rot"]
+    rng = random.Random(case["s"])
+    d = case_dir(ctx)
+    kinds = PROC_KINDS[rot:] + PROC_KINDS[:rot]
+    jobs, meta = [], []
+    for ki, kind in enumerate(kinds):
+        spec = io17.KINDS[kind]
+        hists = [PROC_HISTORIES[(rot + ki) % 2]] + rng.sample(PROC_HISTORIES, case["nh"] - 1)  # a non-empty history first
+        for hi, hist in enumerate(hists):
+            path = os.path.join(d, "k%d_h%d%s" % (ki, hi, spec["ext"]))
+            shapes = "x" if spec["fam"] == "avro" else spec["shapes"]
+            seed = subseed(case["s"], ki, hi)
+            jobs.append({"uri": io17.write_uri(kind, path), "hist": hist, "seed": seed, "shapes": shapes})
+            meta.append((kind, path, hist, seed, shapes))
+    jobs_path, status_path = os.path.join(d, "jobs.json"), os.path.join(d, "status.json")
+    with open(jobs_path, "w") as f:
+        json.dump(jobs, f)
+    ctx.ev()
+    argv = [sys.executable, "-W", "ignore", "-m", "verif.worker_c17", "--state", state, jobs_path, status_path]
+    kw = {"stdin": subprocess.DEVNULL, "stdout": subprocess.PIPE, "stderr": subprocess.PIPE}
+    sink = None
+    if state == "stdout-file":
+        sink = open(os.path.join(d, "child-stdout.bin"), "wb")
+        kw["stdout"] = sink
+    elif state == "stdout-closed-at-start":
+        argv = ["/bin/sh", "-c", 'exec "$0" "$@" >&-'] + argv  # the interpreter starts without descriptor 1 (sys.stdout is None)
+    try:
+        p = subprocess.run(argv, env=worker_env(), cwd=VERIF_DIR, timeout=WORKER_TIMEOUT_S, **kw)
+    except subprocess.TimeoutExpired:
+        ctx.require(False, "a C17 process-state child exceeded its %d s watchdog" % WORKER_TIMEOUT_S)
+        shutil.rmtree(d, ignore_errors=True)
+        return
+    finally:
+        if sink:
+            sink.close()
+    ctx.event("e_children_run")
+    status = None
+    try:
+        with open(status_path) as f:
+            status = json.load(f)
+    except (OSError, ValueError):
+        pass
+    if status is None or not status.get("done") or p.returncode != 0:
+        # a child that cannot report is inconclusive, never a verdict
+        ctx.require(False, "a C17 process-state child (%s) failed: exit %s, %s" % (
+            state, p.returncode, (status or {}).get("worker_error") or (p.stderr or b"")[-300:].decode("utf-8", "replace")))
+        shutil.rmtree(d, ignore_errors=True)
+        return
+    repo = os.path.realpath(os.environ.get("VERIF_REPO", "/repo"))
+    if not os.path.realpath(status["flow_record_file"]).startswith(repo + os.sep):
+        ctx.require(False, "C17 process-state child imported flow.record from %s, not from %s" % (status["flow_record_file"], repo))
+        shutil.rmtree(d, ignore_errors=True)
+        return
+    ctx.nontrivial("procstate", state, rot)
+    ctx.event("e_cases")
+    for (kind, path, hist, seed, shapes), js in zip(meta, status["jobs"]):
+        spec = io17.KINDS[kind]
+        fam = spec["fam"]
+        nw = hist.count("w")
+        extra = {"state": state, "adapter": kind, "history": hist, "op_errors": js["errors"], "fileno": js.get("fileno"),
+                 "sys_stdout": status.get("note", {}).get("sys_stdout")}
+        ctx.cell("procstate", state, kind)
+        ctx.event("e_jobs")
+        if js.get("fileno") in (0, 1, 2):
+            ctx.event("e_files_on_std_descriptor")
+            if js.get("fileno") == 1:
+                ctx.event("e_files_on_descriptor_1")
+        for e in js["errors"]:
+            ctx.event("e_op_raised:%s:%s:%s" % (state, kind, e["op"]))
+        if not js.get("created"):
+            ctx.violation(None, "process state %s: the writer cannot be created" % state, detail=dict(extra, error=js.get("create_error")))
+            continue
+        expected = io17.observe_all(io17.make_records(seed, nw, shapes, generated=io17.fixed_generated(nw)))
+        view = io17.inspect_file(fam, spec["codec"], path)
+        problems = io17.diff_view(fam, view, expected)
+        if nw == 0 and fam not in io17.VALID_EMPTY_FAMILIES:
+            problems = [q for q in problems if q[0] == "indep-mismatch"]
+        ctx.event("e_files_read")
+        if problems:
+            key = None
+            first_closing = next(op for op in hist if op in "cx")
+            if fam == "stream" and nw == 0 and first_closing == "c" and "f" not in hist and stream_empty_mechanism(view, problems):
+                key = "stream-close-without-flush-empty"
+            elif (status.get("note", {}).get("sys_stdout") in NO_BUFFER_STDOUT_TYPES and state in NO_BUFFER_STATES
+                  and any(e["op"] in "cx" and e["exception"].startswith("AttributeError") for e in js["errors"])):
+                # is_stdout() reads sys.stdout.buffer: with a sys.stdout that has none (a StringIO/BytesIO-like capture, or None
+                # when the interpreter started without descriptor 1) close() raises before the file is closed
+                key = "is-stdout-needs-stdout-buffer"
+            report(ctx, key, "process state %s: %s after history %s" % (state, kind, hist), problems, dict(extra, file_size=view.size))
+        else:
+            ctx.event("e_held")
+    ctx.sample({"case": case, "jobs": len(jobs)}, kind="procstate:" + state)
+    shutil.rmtree(d, ignore_errors=True)
+
+
 # ---- (d) writers on standard output -----------------------------------------------------------------
 def exec_stdout(ctx, case):
     uri, kind, shapes = STDOUT_TARGETS[case["tg"]]
@@ -1127,6 +1243,8 @@ def execute(ctx, case):
         return exec_stdout(ctx, case)
     if case["k"] == "splitrel":
         return exec_split_relative(ctx, case)
+    if case["k"] == "procstate":
+        return exec_procstate(ctx, case)
     if case["k"] == "overlap":
         return exec_overlap(ctx, case)
     if case["k"] == "avrefuse":
@@ -1163,6 +1281,7 @@ def finish(ctx):
                 "no close history / split with grouped records of both member-type kinds")
     ctx.require(ev.get("v_cases", 0) > 0 and ev.get("v_records_refused", 0) > 0 and ev.get("v_records_accepted", 0) > 0,
                 "no Avro history in which a record was refused and others accepted")
+    ctx.require(ev.get("e_cases", 0) > 0 and ev.get("e_files_read", 0) > 0, "part (e): no process-state child was read back")
     ctx.require(ev.get("b_rel_cases", 0) > 0, "part (b): no split target with a relative name was written")
     ctx.require(ev.get("d_cases", 0) > 0 and ev.get("d_independent_reads", 0) > 0 and ev.get("d_bytes_captured", 0) > 0,
                 "part (d): no standard-output capture was read back")
